@@ -363,7 +363,7 @@ impl Engine for C17 {
     }
     fn runs(&self, tier: Tier) -> u64 {
         match tier {
-            Tier::Quick => 40_000,
+            Tier::Quick => 80_000,
             Tier::Thorough => 1_500_000,
         }
     }
